@@ -78,3 +78,315 @@ Theorem unhashable_panics : forall ch k v es,
 Proof.
   intros ch k v es H. unfold dict_set, dict_del, dict_get. rewrite H. repeat split.
 Qed.
+
+(* ---- the Dict model computes exactly the reference dictionary's entry list (C08) ------- *)
+
+Section DelLoop.
+  Variable ch : chooser.
+  Variable k : val.
+
+  Let P (e : val * val) : bool := gm_match k e.
+
+  Lemma match_positions_spec : forall es i p,
+    In p (match_positions k es i) ->
+    exists e, nth_error es (p - i) = Some e /\ P e = true /\ (i <= p)%nat.
+  Proof.
+    induction es as [|e t IH]; intros i p H; cbn in H; [contradiction|].
+    fold (P e) in H. destruct (P e) eqn:Pe.
+    - destruct H as [H|H].
+      + subst. exists e. rewrite Nat.sub_diag. cbn. repeat split; [exact Pe|lia].
+      + apply IH in H. destruct H as [e' [N [Pe' L]]]. exists e'.
+        replace (p - i)%nat with (S (p - S i)) by lia. cbn. repeat split; [exact N|exact Pe'|lia].
+    - apply IH in H. destruct H as [e' [N [Pe' L]]]. exists e'.
+      replace (p - i)%nat with (S (p - S i)) by lia. cbn. repeat split; [exact N|exact Pe'|lia].
+  Qed.
+
+  Lemma match_positions_nil : forall es i,
+    match_positions k es i = [] <-> forallb (fun e => negb (P e)) es = true.
+  Proof.
+    induction es as [|e t IH]; intros i; cbn; [split; reflexivity|].
+    fold (P e). destruct (P e); cbn.
+    - split; discriminate.
+    - apply IH.
+  Qed.
+
+  Lemma filter_id : forall es, forallb (fun e => negb (P e)) es = true ->
+    filter (fun e => negb (P e)) es = es.
+  Proof.
+    induction es as [|e t IH]; cbn; intros H; [reflexivity|].
+    apply andb_true_iff in H. destruct H as [H1 H2]. rewrite H1. f_equal. apply IH. exact H2.
+  Qed.
+
+  Fixpoint count (es : entries) : nat :=
+    match es with [] => O | e :: t => (if P e then 1 else 0) + count t end.
+
+  Lemma count_zero : forall es, count es = O <-> forallb (fun e => negb (P e)) es = true.
+  Proof.
+    induction es as [|e t IH]; cbn; [split; reflexivity|].
+    destruct (P e); cbn; [split; [lia|discriminate]|apply IH].
+  Qed.
+
+  Lemma remove_match : forall es p e,
+    nth_error es p = Some e -> P e = true ->
+    filter (fun e => negb (P e)) (remove_nth p es) = filter (fun e => negb (P e)) es
+    /\ S (count (remove_nth p es)) = count es.
+  Proof.
+    induction es as [|x t IH]; intros p e N Pe; [destruct p; discriminate|].
+    destruct p as [|p]; cbn in N.
+    - inversion N; subst. cbn. rewrite Pe. cbn. split; reflexivity.
+    - destruct (IH p e N Pe) as [F Cn]. cbn. rewrite F. split; [reflexivity|].
+      destruct (P x); lia.
+  Qed.
+
+  Lemma find_pos_cases : forall es,
+    (gm_find_pos ch k es = None /\ forallb (fun e => negb (P e)) es = true)
+    \/ (exists p e, gm_find_pos ch k es = Some p /\ nth_error es p = Some e /\ P e = true).
+  Proof.
+    intros es. unfold gm_find_pos. destruct (match_positions k es 0) as [|p0 ps] eqn:M.
+    - left. split; [reflexivity|]. apply (match_positions_nil es 0%nat). exact M.
+    - right.
+      assert (Hin : forall p, In p (p0 :: ps) -> exists e, nth_error es p = Some e /\ P e = true).
+      { intros p Hp. rewrite <- M in Hp. apply match_positions_spec in Hp.
+        destruct Hp as [e [N [Pe _]]]. rewrite Nat.sub_0_r in N. exists e. split; assumption. }
+      destruct (existsb (Nat.eqb (ch (p0 :: ps))) (p0 :: ps)) eqn:E.
+      + apply existsb_exists in E. destruct E as [x [Ix Ex]]. apply Nat.eqb_eq in Ex. subst x.
+        destruct (Hin _ Ix) as [e [N Pe]]. exists (ch (p0 :: ps)), e. repeat split; assumption.
+      + destruct (Hin p0 (or_introl eq_refl)) as [e [N Pe]]. exists p0, e. repeat split; assumption.
+  Qed.
+
+  Lemma gm_get_none_iff : forall es,
+    gm_get ch k es = None <-> forallb (fun e => negb (P e)) es = true.
+  Proof.
+    intros es. unfold gm_get. destruct (find_pos_cases es) as [[F A]|[p [e [F [N Pe]]]]]; rewrite F.
+    - split; [intros _; exact A|reflexivity].
+    - rewrite N. split; [discriminate|].
+      intros A. exfalso. rewrite forallb_forall in A.
+      apply nth_error_In in N. apply A in N. rewrite Pe in N. discriminate.
+  Qed.
+
+  Lemma del_loop_filter : forall fuel es, (count es < fuel)%nat ->
+    dict_del_loop fuel ch k es = filter (fun e => negb (P e)) es.
+  Proof.
+    induction fuel as [|f IH]; intros es Hc; [lia|].
+    cbn [dict_del_loop]. unfold gm_delete.
+    destruct (find_pos_cases es) as [[F A]|[p [e [F [N Pe]]]]]; rewrite F.
+    - (* nothing matches *)
+      destruct (gm_get ch k es) eqn:G.
+      + exfalso. apply gm_get_none_iff in A. congruence.
+      + symmetry. apply filter_id. exact A.
+    - destruct (remove_match es p e N Pe) as [Fl Cn].
+      destruct (gm_get ch k (remove_nth p es)) eqn:G.
+      + rewrite IH by lia. exact Fl.
+      + apply gm_get_none_iff in G. rewrite <- Fl. symmetry. apply filter_id. exact G.
+  Qed.
+
+  Lemma count_le_length : forall es, (count es <= length es)%nat.
+  Proof. induction es as [|e t IH]; cbn; [lia|]. destruct (P e); lia. Qed.
+End DelLoop.
+
+Definition nf_entries (es : entries) : Prop := Forall (fun e => nf_key (fst e) = true) es.
+
+Lemma filter_ext_nf : forall k es, nf_key k = true -> nf_entries es ->
+  filter (fun e => negb (gm_match k e)) es = ref_remove k es.
+Proof.
+  intros k es Hk H. unfold ref_remove. induction H as [|[a v] t Ha Ht IH]; cbn; [reflexivity|].
+  cbn in Ha. rewrite (gm_match_py_eq a k v Ha Hk). rewrite IH. reflexivity.
+Qed.
+
+Lemma ref_remove_nf : forall k es, nf_entries es -> nf_entries (ref_remove k es).
+Proof.
+  intros k es H. unfold ref_remove, nf_entries in *. rewrite Forall_forall in *.
+  intros e He. apply filter_In in He. destruct He as [He _]. apply H. exact He.
+Qed.
+
+(* Del and Set of the model = Del and Set of the reference dictionary, for every slot order *)
+Theorem dict_del_is_ref : forall ch k es, nf_key k = true -> nf_entries es ->
+  dict_del ch k es = Some (ref_del k es).
+Proof.
+  intros ch k es Hk He. unfold dict_del. rewrite (nf_hashable_b k Hk). f_equal.
+  rewrite del_loop_filter by (pose proof (count_le_length k es); lia).
+  apply filter_ext_nf; assumption.
+Qed.
+
+Lemma ref_remove_nomatch : forall k es, nf_key k = true -> nf_entries es ->
+  forallb (fun e => negb (gm_match k e)) (ref_remove k es) = true.
+Proof.
+  intros k es Hk He. apply forallb_forall. intros [a v] Hin.
+  unfold ref_remove in Hin. apply filter_In in Hin. destruct Hin as [Hin Hn]. cbn [fst] in Hn.
+  unfold nf_entries in He. rewrite Forall_forall in He. pose proof (He _ Hin) as Ha. cbn in Ha.
+  rewrite (gm_match_py_eq a k v Ha Hk). exact Hn.
+Qed.
+
+Theorem dict_set_is_ref : forall ch k v es, nf_key k = true -> nf_entries es ->
+  dict_set ch k v es = Some (ref_set k v es).
+Proof.
+  intros ch k v es Hk He. unfold dict_set. rewrite (dict_del_is_ref ch k es Hk He).
+  f_equal. unfold gm_set, ref_set, ref_del.
+  destruct (find_pos_cases ch k (ref_remove k es)) as [[F A]|[p [e [F [N Pe]]]]]; rewrite F.
+  - reflexivity.
+  - exfalso. pose proof (ref_remove_nomatch k es Hk He) as A. rewrite forallb_forall in A.
+    apply nth_error_In in N. apply A in N. rewrite Pe in N. discriminate.
+Qed.
+
+Lemma filter_nil : forall A (f : A -> bool) l, (forall x, In x l -> f x = false) -> filter f l = [].
+Proof.
+  intros A f l. induction l as [|x t IH]; intros H; cbn; [reflexivity|].
+  rewrite (H x (or_introl eq_refl)). apply IH. intros y Hy. apply H. right. exact Hy.
+Qed.
+
+(* Get returns the value of SOME stored entry whose key equals the query, and reports
+   absence exactly when the reference dictionary does *)
+Theorem dict_get_sound : forall ch k es, nf_key k = true -> nf_entries es ->
+  match dict_get ch k es with
+  | Some (Some v) => exists a, In (a, v) es /\ py_eq k a = true
+  | Some None => ref_get k es = None
+  | None => False
+  end.
+Proof.
+  intros ch k es Hk He. unfold dict_get. rewrite (nf_hashable_b k Hk).
+  unfold nf_entries in He. rewrite Forall_forall in He.
+  unfold gm_get. destruct (find_pos_cases ch k es) as [[F A]|[p [[a v] [F [N Pe]]]]]; rewrite F.
+  - unfold ref_get. rewrite filter_nil; [reflexivity|].
+    intros [a v] Hin. apply in_rev in Hin. cbn [fst].
+    pose proof (He _ Hin) as Ha. cbn in Ha.
+    rewrite <- (gm_match_py_eq a k v Ha Hk).
+    rewrite forallb_forall in A. apply A in Hin. apply negb_true_iff in Hin. exact Hin.
+  - rewrite N. cbn [snd]. exists a. split; [apply nth_error_In in N; exact N|].
+    pose proof (He _ (nth_error_In _ _ N)) as Ha. cbn in Ha.
+    rewrite <- (gm_match_py_eq a k v Ha Hk). exact Pe.
+Qed.
+
+(* when at most one stored key equals the query, Get is the reference dictionary's Get *)
+Definition unique_match (k : val) (es : entries) : Prop :=
+  (length (filter (fun e => py_eq k (fst e)) es) <= 1)%nat.
+
+Theorem dict_get_is_ref : forall ch k es, nf_key k = true -> nf_entries es ->
+  unique_match k es -> dict_get ch k es = Some (ref_get k es).
+Proof.
+  intros ch k es Hk He U.
+  pose proof (dict_get_sound ch k es Hk He) as S.
+  destruct (dict_get ch k es) as [[v|]|] eqn:G; [|rewrite S; reflexivity|contradiction].
+  destruct S as [a [Hin Pa]]. f_equal. unfold ref_get, unique_match in *.
+  (* the filtered list has exactly one element, (a, v) *)
+  assert (Hf : In (a, v) (filter (fun e => py_eq k (fst e)) es)).
+  { apply filter_In. split; [exact Hin|exact Pa]. }
+  destruct (filter (fun e => py_eq k (fst e)) es) as [|x [|y t]] eqn:Fe; cbn in U; try lia; [contradiction|].
+  destruct Hf as [Hf|[]]. subst x.
+  assert (Hr : filter (fun e => py_eq k (fst e)) (rev es) = [(a, v)]).
+  { clear - Fe. revert Fe. generalize (fun e : val * val => py_eq k (fst e)). intros f Fe.
+    assert (R : forall l, filter f (rev l) = rev (filter f l)).
+    { induction l as [|x t IH]; cbn; [reflexivity|].
+      rewrite filter_app, IH. cbn. destruct (f x); cbn; [reflexivity|apply app_nil_r]. }
+    rewrite R, Fe. reflexivity. }
+  rewrite Hr. reflexivity.
+Qed.
+
+(* ---- histories ------------------------------------------------------------------------- *)
+
+Definition op_key (o : dop) : val := match o with OpSet k _ | OpDel k | OpGet k => k end.
+
+(* the model Dict after one operation (None = panic) *)
+Definition dict_step (ch : chooser) (es : entries) (o : dop) : option entries :=
+  match o with
+  | OpSet k v => dict_set ch k v es
+  | OpDel k => dict_del ch k es
+  | OpGet k => match dict_get ch k es with Some _ => Some es | None => None end
+  end.
+Definition ref_step (es : entries) (o : dop) : entries :=
+  match o with
+  | OpSet k v => ref_set k v es
+  | OpDel k => ref_del k es
+  | OpGet _ => es
+  end.
+
+Lemma ref_step_nf : forall es o, nf_key (op_key o) = true -> nf_entries es -> nf_entries (ref_step es o).
+Proof.
+  intros es o Hk He. destruct o as [k v|k|k]; cbn [ref_step op_key] in *.
+  - unfold ref_set. apply Forall_app. split; [apply ref_remove_nf; exact He|].
+    constructor; [exact Hk|constructor].
+  - apply ref_remove_nf. exact He.
+  - exact He.
+Qed.
+
+(* C08: after ANY history of Set / Del / Get with hashable (integer-fragment) keys, for ANY
+   slot order, the model Dict holds exactly the reference dictionary's entries *)
+Theorem history_refines : forall ch ops es,
+  Forall (fun o => nf_key (op_key o) = true) ops -> nf_entries es ->
+  fold_left (fun acc o => match acc with Some e => dict_step ch e o | None => None end) ops (Some es)
+  = Some (fold_left ref_step ops es) /\ nf_entries (fold_left ref_step ops es).
+Proof.
+  intros ch ops. induction ops as [|o t IH]; intros es Ho He; cbn [fold_left].
+  - split; [reflexivity|exact He].
+  - inversion Ho as [|? ? Hk Ht]; subst.
+    assert (E : dict_step ch es o = Some (ref_step es o)).
+    { destruct o as [k v|k|k]; cbn [dict_step ref_step op_key] in *.
+      - apply dict_set_is_ref; assumption.
+      - apply dict_del_is_ref; assumption.
+      - pose proof (dict_get_sound ch k es Hk He) as S.
+        destruct (dict_get ch k es); [reflexivity|contradiction]. }
+    rewrite E. apply IH; [exact Ht|apply ref_step_nf; assumption].
+Qed.
+
+(* no two stored keys are equal to each other, after any history *)
+Definition apart (a b : val * val) : Prop :=
+  py_eq (fst a) (fst b) = false /\ py_eq (fst b) (fst a) = false.
+
+Fixpoint distinct (es : entries) : Prop :=
+  match es with
+  | [] => True
+  | e :: t => Forall (apart e) t /\ distinct t
+  end.
+
+Lemma Forall_filter : forall A (P : A -> Prop) f l, Forall P l -> Forall P (filter f l).
+Proof.
+  intros A P f l H. induction H as [|x t Hx Ht IH]; cbn; [constructor|].
+  destruct (f x); [constructor; assumption|exact IH].
+Qed.
+
+Lemma distinct_filter : forall f es, distinct es -> distinct (filter f es).
+Proof.
+  intros f es. induction es as [|e t IH]; cbn; intros H; [exact I|].
+  destruct H as [Hf Hd]. destruct (f e); cbn.
+  - split; [apply Forall_filter; exact Hf|apply IH; exact Hd].
+  - apply IH. exact Hd.
+Qed.
+
+Lemma distinct_snoc : forall es x, distinct es -> Forall (fun e => apart e x) es -> distinct (es ++ [x]).
+Proof.
+  induction es as [|e t IH]; intros x Hd Hx; cbn.
+  - split; [constructor|exact I].
+  - destruct Hd as [Hf Hd]. inversion Hx as [|? ? Hex Htx]; subst. split.
+    + apply Forall_app. split; [exact Hf|constructor; [exact Hex|constructor]].
+    + apply IH; assumption.
+Qed.
+
+Lemma ref_step_distinct : forall es o, nf_key (op_key o) = true -> nf_entries es ->
+  distinct es -> distinct (ref_step es o).
+Proof.
+  intros es o Hk He Hd. destruct o as [k v|k|k]; cbn [ref_step op_key] in *.
+  - unfold ref_set. apply distinct_snoc.
+    + unfold ref_remove. apply distinct_filter. exact Hd.
+    + apply Forall_forall. intros [a w] Hin. unfold ref_remove in Hin. apply filter_In in Hin.
+      destruct Hin as [Hin Hn]. cbn [fst] in Hn. apply negb_true_iff in Hn.
+      unfold nf_entries in He. rewrite Forall_forall in He. pose proof (He _ Hin) as Ha. cbn in Ha.
+      unfold apart. cbn [fst]. split; [rewrite (py_eq_sym_nf a k Ha Hk); exact Hn|exact Hn].
+  - unfold ref_del, ref_remove. apply distinct_filter. exact Hd.
+  - exact Hd.
+Qed.
+
+Theorem history_distinct : forall ops es,
+  Forall (fun o => nf_key (op_key o) = true) ops -> nf_entries es -> distinct es ->
+  distinct (fold_left ref_step ops es).
+Proof.
+  induction ops as [|o t IH]; intros es Ho He Hd; cbn [fold_left]; [exact Hd|].
+  inversion Ho as [|? ? Hk Ht]; subst.
+  apply IH; [exact Ht|apply ref_step_nf; assumption|apply ref_step_distinct; assumption].
+Qed.
+
+(* the Del loop needs at most (number of equal entries + 1) rounds: it terminates *)
+Theorem del_loop_terminates : forall ch k es fuel, (length es < fuel)%nat ->
+  dict_del_loop fuel ch k es = dict_del_loop (S (length es)) ch k es.
+Proof.
+  intros ch k es fuel H.
+  rewrite !del_loop_filter; [reflexivity| |]; pose proof (count_le_length k es); lia.
+Qed.
